@@ -335,8 +335,9 @@ PresentKeys(cfg, fs) == UNION {{n \in DOMAIN fs.ents[d] : IsKeyName(n) /\ fs.ent
 \* C11: a sharded cache never holds two copies of one key
 OneCopy(cfg, s) == \A k \in PresentKeys(cfg, s.fs) : Cardinality(KeyDirs(cfg, s.fs, k)) <= 1
 \* C11: lookups return what the simple map predicts
+IsSeq(cfg) == Has(cfg, "seq") /\ cfg.seq
 SeqMapOK(cfg, s, e) ==
-    e.e = "obs" /\ e.p \in DOMAIN s.cur /\ Has(s.cur[e.p], "key") /\ e.api \in {"get", "touch"} /\ Get(s.lastok, e.p, FALSE) =>
+    IsSeq(cfg) /\ e.e = "obs" /\ e.p \in DOMAIN s.cur /\ Has(s.cur[e.p], "key") /\ e.api \in {"get", "touch"} /\ Get(s.lastok, e.p, FALSE) =>
         LET k == s.cur[e.p].key r == s.lastret[e.p] IN
         IF k \in DOMAIN s.absmap THEN
             IF e.api = "get" THEN r.res = "some" /\ Has(e, "handle") /\ Has(e.handle.c, "val") /\ e.handle.c.val = s.absmap[k]
@@ -345,14 +346,14 @@ SeqMapOK(cfg, s, e) ==
         ELSE r.res \in {"none", "false"}
 \* C11: an entry disappears only in an operation that ran maintenance (whose choice PruneOK judges)
 UnexplainedLoss(cfg, s, e, s2) ==
-    e.e = "ret" /\ ~(Has(e, "world") /\ e.world) =>
+    IsSeq(cfg) /\ e.e = "ret" /\ ~(Has(e, "world") /\ e.world) =>
         \A k \in DOMAIN s.absmap : k \notin PresentKeys(cfg, s.fs) => Get(s.pruned, e.p, FALSE)
 \* C11: a successful set / put consumes its source
 SrcConsumed(e) == e.e = "ret" /\ e.ok /\ e.api \in {"set", "put"} /\ Has(e, "src_exists") => ~e.src_exists
 \* C09: reads mark without reordering; writes enqueue fresh
 Marked(i) == TLe(i.mt, i.at)
 ReadMarks(cfg, s, e) ==
-    e.e = "ret" /\ e.ok /\ e.p \in DOMAIN s.cur /\ Has(s.cur[e.p], "key") /\ e.p \in DOMAIN s.atcall =>
+    IsSeq(cfg) /\ e.e = "ret" /\ e.ok /\ e.p \in DOMAIN s.cur /\ Has(s.cur[e.p], "key") /\ e.p \in DOMAIN s.atcall =>
         LET k == s.cur[e.p].key pre == s.atcall[e.p]
             hitop == (e.api = "get" /\ e.res = "some") \/ (e.api = "touch" /\ e.res = "true")
                      \/ (e.api \in {"put", "put_tf"} /\ KeyDirs(cfg, pre, k) # {})
@@ -361,7 +362,7 @@ ReadMarks(cfg, s, e) ==
             /\ Marked(b)                                  \* the next maintenance sees it as recently used
             /\ b.mt = a.mt /\ b.c = a.c /\ b.mode = a.mode  \* queue position and content unchanged
 FreshOnWrite(cfg, s, e) ==
-    e.e = "ret" /\ e.ok /\ e.p \in DOMAIN s.cur /\ Has(s.cur[e.p], "key") /\ e.p \in DOMAIN s.atcall =>
+    IsSeq(cfg) /\ e.e = "ret" /\ e.ok /\ e.p \in DOMAIN s.cur /\ Has(s.cur[e.p], "key") /\ e.p \in DOMAIN s.atcall =>
         LET k == s.cur[e.p].key pre == s.atcall[e.p]
             inserts == e.api \in {"set", "set_tf"} \/ (e.api \in {"put", "put_tf"} /\ KeyDirs(cfg, pre, k) = {})
         IN inserts /\ KeyDirs(cfg, s.fs, k) # {} =>
